@@ -203,3 +203,76 @@ Example history_examples :
   dis_disabled (o_d (owner_run hc_all (OState dis_empty []) h_refused_plugin)) s_a [66%N] = true /\
   memG (canon s_a) (s_G (spec_run hc_all S0 h_refused_plugin)) = true.
 Proof. repeat split; vm_compute; reflexivity. Qed.
+
+(* ---- the table built when the bot starts (DisabledCommands.__init__ from supybot.commands.disabled) ---- *)
+Lemma dis_add_all d c' c p :
+  dis_disabled (dis_add d c' None) c p = seq_eqb (canon c) (canon c') || dis_disabled d c p.
+Proof.
+  unfold dis_disabled, dis_add. cbn [d_all d_per]. unfold memG at 1. rewrite set_add_mem.
+  fold (memG (canon c) (d_all d)). rewrite orb_assoc. reflexivity.
+Qed.
+
+Lemma dis_add_plugin d c' p' c p :
+  dis_disabled (dis_add d c' (Some p')) c p =
+  (seq_eqb (canon c) (canon c') && seq_eqb (canon p) (canon p')) || dis_disabled d c p.
+Proof.
+  unfold dis_disabled, dis_add. cbn [d_all d_per].
+  destruct (dict_get (canon c') (d_per d)) as [set|] eqn:Hget; rewrite per_has_set;
+    destruct (seq_eqb (canon c) (canon c')) eqn:Ec; cbn [andb orb].
+  - apply seq_eqb_eq in Ec. rewrite set_add_mem. unfold per_has. rewrite Ec, Hget.
+    destruct (memG (canon c') (d_all d)), (seq_eqb (canon p) (canon p')), (existsb (seq_eqb (canon p)) set); reflexivity.
+  - reflexivity.
+  - apply seq_eqb_eq in Ec. unfold per_has. rewrite Ec, Hget. simpl. rewrite !orb_false_r.
+    destruct (memG (canon c') (d_all d)), (seq_eqb (canon p) (canon p')); reflexivity.
+  - reflexivity.
+Qed.
+
+(* one entry of the registry list disables (c, p) iff it names the command, and the plugin if it has one --
+   both compared after canonicalName, so 'misc.ping' disables Misc's ping *)
+Definition entry_disables (name c p : str) : bool :=
+  match split1 [46%N] name with
+  | Some (plugin, command) => seq_eqb (canon c) (canon command) && seq_eqb (canon p) (canon plugin)
+  | None => seq_eqb (canon c) (canon name)
+  end.
+
+Definition conf_step (d : dis) (name : str) : dis :=
+  match split1 [46%N] name with
+  | Some (plugin, command) => dis_add d command (Some plugin)
+  | None => dis_add d name None
+  end.
+
+Lemma conf_step_disabled d name c p :
+  dis_disabled (conf_step d name) c p = dis_disabled d c p || entry_disables name c p.
+Proof.
+  unfold conf_step, entry_disables. destruct (split1 [46%N] name) as [[plugin command]|].
+  - rewrite dis_add_plugin. apply orb_comm.
+  - rewrite dis_add_all. apply orb_comm.
+Qed.
+
+Theorem startup_table conf c p :
+  dis_disabled (dis_of_conf conf) c p = existsb (fun name => entry_disables name c p) conf.
+Proof.
+  unfold dis_of_conf. change (fun d name => match split1 [46%N] name with
+                                            | Some (plugin, command) => dis_add d command (Some plugin)
+                                            | None => dis_add d name None end) with conf_step.
+  assert (H : forall d0, dis_disabled (fold_left conf_step conf d0) c p =
+                         dis_disabled d0 c p || existsb (fun name => entry_disables name c p) conf).
+  { induction conf as [|name conf IH]; intro d0; simpl; [rewrite orb_false_r; reflexivity|].
+    rewrite IH, conf_step_disabled, orb_assoc. reflexivity. }
+  rewrite H. reflexivity.
+Qed.
+
+(* the per-plugin entries are insensitive to how the plugin name was spelt when it was stored *)
+Theorem plugin_name_canonical d c p p' :
+  canon p = canon p' -> dis_disabled (dis_add d c (Some p)) c p' = true.
+Proof. intro H. rewrite dis_add_plugin, H, !seq_eqb_refl. reflexivity. Qed.
+
+(* `disable Misc ping`, restart: the registry holds 'misc.ping', the plugin asks with 'Misc' *)
+Definition s_misc : str := [77; 105; 115; 99]%N.  Definition s_ping : str := [112; 105; 110; 103]%N.
+Example restart_keeps_disabled :
+  let st := owner_run hc_all (OState dis_empty []) [ODisable (Some s_misc) s_ping] in
+  o_conf st = [[109; 105; 115; 99; 46; 112; 105; 110; 103]%N] /\
+  dis_disabled (o_d (restart st)) s_ping s_misc = true /\
+  dis_disabled (o_d (restart st)) s_ping [65; 108]%N = false /\
+  o_d (restart (restart st)) = o_d (restart st).
+Proof. repeat split; vm_compute; reflexivity. Qed.
